@@ -21,7 +21,9 @@ pub struct Error;
 pub struct HandleFrameError;
 pub struct RecvError;
 pub type RelayRecvError = RecvError;
-pub struct WriteFrameError;
+pub struct RelaySendError;
+pub mod tokio { pub mod time { pub mod error { pub struct Elapsed; } } }
+//@item iroh-relay/src/server/client.rs enum WriteFrameError
 pub struct SignatureError;
 pub struct StreamError;
 #[verifier::external_body] pub fn mk_error() -> Error { unimplemented!() }
@@ -149,6 +151,8 @@ impl mpsc::Sender<Packet> {
 }
 
 //@item iroh-relay/src/server/client.rs struct Packet pubfields
+// derived Clone of Packet: a faithful copy
+impl Clone for Packet { #[verifier::external_body] fn clone(&self) -> (r: Packet) ensures r == *self { unimplemented!() } }
 pub struct CancellationToken { pub id: int }
 impl CancellationToken {
     #[verifier::external_body] pub fn is_cancelled(&self) -> bool { unimplemented!() }
@@ -225,11 +229,16 @@ impl PingTracker { #[verifier::external_body] pub fn pong_received(&mut self, da
 pub struct Duration;   // only carried inside RelayToClientMsg::Restarting
 //@item iroh-relay/src/server/client.rs struct Actor keep=stream,guard,clients,ping_tracker,metrics pubfields pub
 pub uninterp spec fn wrote(f: RelayToClientMsg) -> bool;
+// ghost history of the connection's sink: every frame a write was ATTEMPTED for, in order.  A write that times out or
+// fails may already have queued its frame in the sink (Sink::send = poll_ready, start_send, poll_flush: only the flush
+// waits for the peer), so an attempt counts whether or not it reports success.
+pub uninterp spec fn attempts<S>(s: RelayedStream<S>) -> Seq<RelayToClientMsg>;
 impl<S> Actor<S> {
     // tokio::time::timeout(self.timeout, self.stream.send(frame)): Ok only if the frame went into the sink
     #[verifier::external_body]
     pub async fn write_frame(&mut self, frame: RelayToClientMsg) -> (r: Result<(), WriteFrameError>)
         ensures r is Ok ==> wrote(frame),
+                attempts(final(self).stream) == attempts(old(self).stream).push(frame),
                 final(self).guard == old(self).guard, final(self).clients == old(self).clients
     { unimplemented!() }
 
@@ -250,11 +259,17 @@ impl<S> Actor<S> {
 //@end
 
 //@fn iroh-relay/src/server/client.rs Actor::send_raw props=C04 ret=r
-//@| ensures r is Ok ==> wrote(RelayToClientMsg::Datagrams { remote_endpoint_id: packet.src, datagrams: packet.data })
+//@| ensures
+//@|     r is Ok ==> wrote(RelayToClientMsg::Datagrams { remote_endpoint_id: packet.src, datagrams: packet.data }),
+//@|     // exactly one write attempt, of exactly this batch attributed to its source
+//@|     attempts(final(self).stream) == attempts(old(self).stream).push(RelayToClientMsg::Datagrams { remote_endpoint_id: packet.src, datagrams: packet.data }),
 //@end
 
 //@fn iroh-relay/src/server/client.rs Actor::send_packet props=C04 ret=r
-//@| ensures r is Ok ==> wrote(RelayToClientMsg::Datagrams { remote_endpoint_id: packet.src, datagrams: packet.data })
+//@| ensures
+//@|     r is Ok ==> wrote(RelayToClientMsg::Datagrams { remote_endpoint_id: packet.src, datagrams: packet.data }),
+//@|     // a queued packet is handed to the sink at most once (here: exactly one attempt), whatever the outcome
+//@|     attempts(final(self).stream) == attempts(old(self).stream).push(RelayToClientMsg::Datagrams { remote_endpoint_id: packet.src, datagrams: packet.data }),
 //@end
 }
 
